@@ -167,7 +167,7 @@ def gen(rng, tier, quarantine=()):
     ops.append({"op": "call", "fn": f, "nargs": 1, "tape": tree_tape(rng, 8, set(fns), pc), "faults": {}})
     ops.append({"op": "exit", "id": "fresh"})
     ops.append({"op": "call", "fn": f, "nargs": 1, "tape": tree_tape(rng, 6, set(fns), pc), "faults": {}})
-    return {"prog": "calltree", "ops": ops}
+    return {"prog": "calltree", "ops": ops, "exact_failures": True}
 
 
 def run(scenario):
